@@ -20,7 +20,6 @@ from .sir import loc
 EXCEPTIONS = [
     ('Alma', 'fdiv', r'wtd_sum.*cum_wt|cum_wt', 'cum_wt is the sum of the positive exp(·) weights of the values in the (non-empty) window'),
     ('HLNormalizer', 'fdiv', r'in\.max - in\.min', 'min <= last <= max (tracked extrema) and the branch excludes last == min == max, so max > min'),
-    ('Rsi', 'fdiv', r'1\.0 \+', 'rs = avg_gain/avg_loss >= 0, so 1 + rs >= 1'),
     ('BinaryEntropy', 'flog2', r'.', 'log2(0) = -inf gives 0·(-inf) = NaN, masked by the is_nan reset that post-dominates it'),
     ('WelfordRolling', 'fsqrt', r'.', 'population variance s/n with s a sum of Welford increments (x-old_mean)(x-new_mean) >= 0'),
     ('RoofingFilter', 'fdiv', r'cos\(', 'cos(4.4422/N) != 0 for every integer N >= 2 (checked per N under C09/C11)'),
